@@ -42,6 +42,28 @@ class Deadlock(Exception):
         self.stacks = stacks
 
 
+class _Focus:
+    """membership test for the focus set: the named functions, plus every function (by qualified name) that the reference tree does not have"""
+
+    def __init__(self, names, known):
+        self.names, self.known = frozenset(names), known
+
+    def __contains__(self, code):
+        return code.co_name in self.names or code.co_qualname not in self.known
+
+
+_BASELINE = None
+LAST = {"novel": []}
+
+
+def _baseline_names():
+    global _BASELINE
+    if _BASELINE is None:
+        with open(os.path.join(os.path.dirname(__file__), "baseline_names.txt")) as f:
+            _BASELINE = frozenset(f.read().split("\n"))
+    return _BASELINE
+
+
 class StepBudget(Exception):
     pass
 
@@ -136,6 +158,7 @@ class Scheduler:
         self.record = record
         self.trace = []  # (step, thread, op, where) when record
         self.escalations = []  # os.kill / os._exit attempts of in-process workers
+        self.expired = []  # timed waits (not sleeps) that ended by their timeout: (thread, op, timeout, condition true by then)
         self.marks = {}  # free-form named step markers set by scenarios (for non-triviality rules)
         self.timeouts_fired = 0
 
@@ -218,7 +241,10 @@ class Scheduler:
             me.waiting_on = None
         if me.timed_out:
             me.timed_out = False
-            return bool(pred())
+            ok = bool(pred())
+            if op != "sleep":
+                self.expired.append((me.name, op, timeout, ok))
+            return ok
         return True
 
     def _rec(self, me, op):
@@ -244,6 +270,10 @@ class Scheduler:
         focus: optional set of function names - only lines inside those functions are counted"""
         src = os.path.join(tree.SRC, "execnet") + os.sep
         sched = self
+        known_all = _baseline_names()
+        if focus is not None:
+            # a function the reference tree does not have is new code: it is always in focus
+            focus = _Focus(focus, known_all)
 
         def local(frame, event, arg):
             if event == "line":
@@ -254,14 +284,28 @@ class Scheduler:
                     sched.yield_point("preempt")
             return local
 
+        novel = self.novel_lines = []
+        if not self.preempt_at:
+            LAST["novel"] = novel  # the unpreempted base run of an enumeration: explore reads which lines were new code
+
+        def local_novel(frame, event, arg):
+            if event == "line":
+                novel.append(sched.lines + 1)
+            local(frame, event, arg)
+            return local_novel
+
         import weakref
 
         weak_file = weakref.__file__
 
         def tracer(frame, event, arg):
             code = frame.f_code
-            if code.co_filename.startswith(src) and (focus is None or code.co_name in focus):
-                return local
+            if code.co_filename.startswith(src):
+                if code.co_qualname not in known_all:
+                    return local_novel
+                if focus is None or code in focus:
+                    return local
+                return None
             # the channel table is a WeakValueDictionary whose iteration is Python code: a thread can be preempted
             # in the middle of list(factory._channels) just as well as in execnet's own lines
             if code.co_filename == weak_file and code.co_name in ("__iter__", "keys", "values", "items", "itervaluerefs"):
